@@ -31,9 +31,10 @@ ALPHA = [
     ('terminate-pid@3 -> 88', lambda ts: [R('TRACE_DATA_THREAD_TERMINATE_PID', 0, (88, 1, 0, 0), tid=3, ts=ts)]),
     ('thd-data tid3 pid99 by 2', lambda ts: [R('PERF_THD_Data', 0, (99, 3, 0, 0), tid=2, ts=ts)]),
     ('wait@2', lambda ts: [R('MACH_WAIT', 0, (0x10, 0, 0, 0), tid=2, ts=ts)]),
-    ('exec-data pid 20 by 3', lambda ts: [R('TRACE_DATA_EXEC', 0, (20, 0, 0, 0), tid=3, ts=ts)]),
+    ('exec-data pid 20 by 1', lambda ts: [R('TRACE_DATA_EXEC', 0, (20, 0, 0, 0), tid=1, ts=ts)]),    # thread 1 emits both kinds of pairs
     ('thread-terminate of 1 reported by 2', lambda ts: [R('TRACE_DATA_THREAD_TERMINATE', 0, (1, 0, 0, 0), tid=2, ts=ts)]),
-    ('exec-string by 3', lambda ts: [R('TRACE_STRING_EXEC', 0, tid=3, ts=ts, data=b'e' * 32)]),
+    ('exec-string by 1', lambda ts: [R('TRACE_STRING_EXEC', 0, tid=1, ts=ts, data=b'e' * 32)]),
+    ('exec-string by 3', lambda ts: [R('TRACE_STRING_EXEC', 0, tid=3, ts=ts, data=b'f' * 32)]),     # thread 3 never emits the DATA half
 ]
 MAPS = [[], [(1, 10, 'A')], [(1, 10, 'A'), (2, 20, 'B')], [(1, 2, 'A'), (2, 1, 'B'), (3, 3, 'C')],   # tids collide with pids
         [(1, 0xffffffff, 'M'), (2, 0x80000000, 'N')]]   # pids with the top bit set
@@ -143,13 +144,15 @@ def model(m, seq):
         elif nm.startswith('wait') or nm.startswith('thread-terminate'):
             out.append((2, [(dict(tp), dict(pn))]))
         elif nm.startswith('exec-data'):
-            last_exec[3] = 20
-            out.append((3, [(dict(tp), dict(pn))]))
+            last_exec[1] = 20
+            out.append((1, [(dict(tp), dict(pn))]))
+        elif nm == 'exec-string by 3':
+            out.append((3, [(dict(tp), dict(pn))]))      # no DATA record of thread 3 precedes it: nothing is renamed
         elif nm.startswith('exec-string'):
             old = (dict(tp), dict(pn))
-            if 3 in last_exec:
-                pn[last_exec[3]] = 'e' * 32
-            out.append((3, [old, (dict(tp), dict(pn))]))
+            if 1 in last_exec:
+                pn[last_exec[1]] = 'e' * 32
+            out.append((1, [old, (dict(tp), dict(pn))]))
     return out
 
 
